@@ -46,7 +46,7 @@ func run(c *vf.Ctx) {
 		}
 		sp := chain.Spec(n)
 		m := &chain.Model{Name: "union-leafkey", Spec: sp, Menu: menu, Opt: opt, LeafKey: true, StaleResolve: true,
-			H: vf.Pick[uint64](c, 7, 9), D: vf.Pick(c, 2, 2), K: vf.Pick(c, 1, 2), R: vf.Pick(c, 1, 2)}
+			H: vf.Pick[uint64](c, 7, 9), D: vf.Pick(c, 2, 3), K: vf.Pick(c, 1, 1), R: vf.Pick(c, 1, 2)}
 		if sp.Name == "mixed" {
 			m.SkipStart = 3
 			m.H += 3
